@@ -235,8 +235,10 @@ def _c01_floors(m, tier):
     ne, no = len(m.cov.get("enc_form", {})), len(m.cov.get("open_form", {}))
     if ne < 26:
         out.append("only %d of 26 encryption forms (20 stable + 6 heap/locked) driven" % ne)
-    if no < 24:
-        out.append("only %d of 24 opening forms (18 stable + 6 heap/locked) driven" % no)
+    if no < 28:
+        out.append("only %d of 28 opening forms (22 stable incl. 4 trial-decryption sequences + 6 heap/locked) driven" % no)
+    if len(m.cov.get("poly1305_limb_edge_messages", {})) < (8 if tier == "quick" else 16):
+        out.append("crafted Poly1305 limb-edge messages: only %d cells built" % len(m.cov.get("poly1305_limb_edge_messages", {})))
     for dim, kv in m.cov.items():
         if dim.startswith("enc_form_x_len_mod16[") and len(kv) < 16:
             out.append("%s saw only %d residues" % (dim, len(kv)))
@@ -246,7 +248,7 @@ def _c01_floors(m, tier):
 PROPS["C01"] = dict(
     level="exploration",
     technique="runtime differential monitoring: every encryption/open entry point x container type executed on every message length, ciphertext bytes compared with libsodium, cross-opening in both directions, sealed-box construction re-derived; Python XSalsa20-Poly1305 / X25519 model offline",
-    level_text="26 encryption forms and 24 opening forms (classic easy/detached/in-place/afternm/seal and the object API over array, stack, Vec, heap, locked and read-only-locked "
+    level_text="26 encryption forms and 28 opening forms (classic easy/detached/in-place/afternm/seal, in-place forms re-tried on the same buffer after a wrong key, and the object API over array, stack, Vec, heap, locked and read-only-locked "
                "containers) are run on every message length 0..=320 (quick) / 0..=1100 (thorough) plus multi-KiB lengths with seeded keys including all-zero/all-0xff keys and nonces; "
                "each ciphertext must equal libsodium's bytes and each libsodium ciphertext must open. Keys, nonces and contents are sampled; lengths are enumerated.",
     level_note="libsodium is the specification named by the property; sealed boxes are checked by libsodium opening them and by re-deriving nonce = BLAKE2b-24(epk||rpk).",
@@ -269,9 +271,11 @@ def _fault_floors(pid):
                      "associated_data|bit_flip", "encrypted_tag_byte|bit_flip", "ciphertext|truncate", "ciphertext|extend"]:
             if not any(k.endswith("|" + comp) for k in cells):
                 out.append("fault class %s never exercised" % comp)
+        if not any("buffer sized for the genuine message" in k for k in cells):
+            out.append("length-changing faults never presented with a caller buffer sized for the genuine message")
         forms = {k.split("|")[0] for k in cells}
-        if len(forms) < 26:
-            out.append("only %d of 26 opening forms (18 AE + 6 heap/locked + 2 stream) reached by faults" % len(forms))
+        if len(forms) < 30:
+            out.append("only %d of 30 opening forms (22 AE + 6 heap/locked + 2 stream) reached by faults" % len(forms))
         return out
     return floors
 
